@@ -25,6 +25,7 @@ The architecture here is briefly:
 """
 
 import collections
+import pickle
 import os
 import sys
 import queue
@@ -318,7 +319,7 @@ class CompiledSubprocess:
 
         try:
             is_exception, traceback, result = pickle_load(self._get_process().stdout)
-        except EOFError as eof_error:
+        except (EOFError, pickle.UnpicklingError) as eof_error:
             try:
                 stderr = self._get_process().stderr.read().decode('utf-8', 'replace')
             except Exception as exc:
